@@ -128,7 +128,9 @@ fn run<const D: usize>(t: &[&str]) -> String {
                 }
             }
             "it" => list(&mut out, tensor.iter().copied()),
-            "dm" => out.extend(tensor.dims().iter().map(|d| d.to_string())),
+            // dims() and dim(i) must tell the same story: a disagreement is printed as 0 (never a valid extent)
+            "dm" => out.extend(tensor.dims().iter().enumerate()
+                .map(|(i, d)| if tensor.dim(i) == *d { d.to_string() } else { "0".to_string() })),
             "w" => match guarded(|| written(&tensor)) {
                 Some(b) => out.push(enc(&b)),
                 None => out.push("P".into()),
